@@ -1,7 +1,8 @@
 """Slices that touch the world: real files (C14), module import on real directory trees (C15), isolation (C20), cli.run (C18)."""
 import sys, os, io, random, subprocess, collections, shutil, unicodedata, tempfile, json
 import vlib, progen as G
-from vlib import mods, impl_run
+from vlib import mods, impl_run, model_run, compare, decode_v
+def res(o): return decode_v(o.split("\t")[0])
 from slices_core import N
 E = G.enc
 
@@ -428,6 +429,70 @@ def _seq(cases, cwd=None, hashseed="0"):
                        capture_output=True, text=True, env=dict(os.environ, PYTHONHASHSEED=str(hashseed)), timeout=600)
     try: return json.loads(p.stdout)
     except Exception: return [["RUNNER-FAILED " + p.stderr[-200:], "", ""]] * len(cases)
+
+def c15_in_model(r, seed, tier, model_ok):
+    """programs that import module FILES, through the interpreter in a fresh directory holding the files and through the main model on a disk
+    holding the same bytes (run_main_fs: ㅂ searches the tree the disk denotes - ImpSearch.search - or takes a path string, then
+    Builtins.load_from_path; ImportMain.v): both routes, the same file twice and by both routes (one object), imports from inside nested functions
+    with arguments in scope, modules that import modules, modules whose expression fails or is a function, bad modules (none / several
+    expressions, syntax errors, bytes that are not UTF-8, directories, missing files, ambiguous names), carriage returns and byte-order marks in
+    module texts - printed result or error WITH its source location (inside the module file too) and the complete observer event trace"""
+    if not model_ok: return
+    R = random.Random(seed * 7919 + 0xC15 + 21); n = N(tier, 500, 10000); cases = []; shapes = collections.Counter()
+    EXT = ["", "", ".txt", "ㅏ", ".py", " x", "-1"]
+    def spell(lit):      # a file / directory name carrying the literal: plain jamo, syllables, with an extension or other non-consonants around
+        w = E(lit); k = R.random()
+        if k < .5: nm = w
+        elif k < .75: nm = "".join(chr(0xAC00 + 588 * "ㄱㄲㄴㄷㄸㄹㅁㅂㅃㅅㅆㅇㅈㅉㅊㅋㅌㅍㅎ".index(c) + 28 * R.randrange(21) + R.choice([0, 0, 4, 8])) for c in w)
+        else: nm = "".join(c + R.choice(["", "ㅏ", "ㅣ"]) for c in w)
+        return R.choice(["", "", "_", "1."]) + nm + R.choice(EXT)
+    BODIES = [("int", lambda: E(R.randrange(-9, 60))), ("list", lambda: f"{E(R.randrange(9))} {E(R.randrange(9))} ㅁㄹㅎㄷ"), ("fun1", lambda: f"ㄱㅇㄱ {E(R.randrange(1, 5))} ㄷㅎㄷ ㅎ"),
+              ("fun2", lambda: "ㄱㅇㄱ ㄴㅇㄱ ㄱㅎㄷ ㅎ"), ("sum", lambda: f"{E(R.randrange(9))} {E(R.randrange(9))} ㄷㅎㄷ"), ("argref", lambda: "ㄱㅇㄱ"), ("funref", lambda: "ㄱㅇ"),
+              ("throw", lambda: f"{E(R.randrange(9))} ㄷㅂㅎㄴ ㄷㅈㅎㄴ"), ("typeerr", lambda: "ㄴ (ㄱ ㅁㅈㅎㄴ) ㄷㅎㄷ"), ("multiline", lambda: f"{E(R.randrange(9))}\n {E(R.randrange(9))}\n\n  ㄷㅎㄷ"),
+              ("crlf", lambda: f"{E(R.randrange(9))}\r\n{E(R.randrange(9))} ㄷㅎㄷ"), ("cr", lambda: f"{E(R.randrange(9))}\r{E(R.randrange(9))} ㄱㅎㄷ"), ("bom", lambda: f"\ufeff{E(R.randrange(9))}"),
+              ("two", lambda: f"{E(R.randrange(9))} {E(R.randrange(9))}"), ("empty", lambda: R.choice(["", " \n", "# nothing", "\ufeff"])), ("syntax", lambda: R.choice(["ㄱ ㅎㄷ", "ㅎ", "ㄱ ㅇㅎ", "ㄴ ㄷ ㅎㄹ"])),
+              ("syntax-line2", lambda: "ㄴ ㄷ ㄷㅎㄷ\n ㄹ ㅎㅁ"), ("action", lambda: f"{E(R.randrange(9))} ㅁㅈㅎㄴ ㅈㄹㅎㄴ"), ("io-read", lambda: "ㄹㅎㄱ"), ("dict", lambda: f"{E(1)} {E(R.randrange(9))} ㅅㅈㅎㄷ")]
+    while len(cases) < n:
+        files = {}; mods_ = []          # (literal path, relative path, body kind)
+        for _ in range(R.randrange(1, 5)):
+            depth = R.choice([1, 1, 2, 2, 3]); lits = [R.choice([0, 1, 2, 3, 8, 9, -1, -5, 64]) for _ in range(depth)]
+            if lits[0] == 5: continue
+            rel = "/".join(spell(l) for l in lits)
+            if any(rel == q or rel.startswith(q + "/") or q.startswith(rel + "/") for q in files): continue
+            kind, mk = R.choice(BODIES); body = mk()
+            if kind in ("int", "sum") and R.random() < .15 and mods_:          # a module importing another module (by literals or by path)
+                ol, orel, _ = R.choice(mods_); body = (" ".join(E(x) for x in ol) + f" ㅂㅎ{E(len(ol))}") if R.random() < .5 else f"{st(orel)} ㅂㅎㄴ"; kind = "imports"
+            files[rel] = body.encode("utf-8") if R.random() > .04 else R.choice([b"\xff\xfe", b"\xe3\x84", b"\xc0\x80", b"\xed\xa0\x80"]); mods_.append((lits, rel, kind))
+        if not mods_: continue
+        if R.random() < .2:          # a second entry with the same normal form somewhere: ambiguity (or a file next to a directory of the same literal)
+            lits, rel, _ = R.choice(mods_); parts = rel.split("/"); i = R.randrange(len(parts)); alt = spell(lits[i])
+            if alt != parts[i]:
+                rel2 = "/".join(parts[:i] + [alt] + parts[i + 1:])
+                if not any(rel2 == q or rel2.startswith(q + "/") or q.startswith(rel2 + "/") for q in files): files[rel2] = E(7).encode()
+        if R.random() < .3: files[R.choice(["readme", "x/y", "ㅇ", "ㅎㄱ", "a b"])] = b"not a module"
+        lits, rel, kind = R.choice(mods_)
+        by_lit = "(" + " ".join(E(x) for x in lits) + f" ㅂㅎ{E(len(lits))})"; by_path = f"({st(R.choice(['', './', './', './././']) + rel)} ㅂㅎㄴ)"
+        imp = R.choice([by_lit, by_lit, by_path]); k = R.random(); isfun = kind in ("fun1", "fun2")
+        use = (lambda x: f"({E(R.randrange(9))} {E(R.randrange(9))} {x} ㅎㄷ)") if isfun else (lambda x: x)
+        if k < .2: t = use(imp); sh = "plain"
+        elif k < .35: t = f"{use(by_lit)} {use(by_path)} {use(imp)} ㅁㄹㅎㄹ"; sh = "both-routes-in-a-list"
+        elif k < .45: t = f"{by_lit} {by_path} ㄴㅎㄷ"; sh = "both-routes-compared"
+        elif k < .6: t = f"{E(R.randrange(9))} {E(R.randrange(9))} ({E(R.randrange(9))} ({use(imp)} ㄱㅇㄱ ㄱㅇㄴ ㅁㄹㅎㄹ ㅎ) ㅎㄴ ㅎ) ㅎㄷ"; sh = "from-nested-functions"
+        elif k < .7: t = f"{use(imp)} ((ㄱㅇㄱ) ㅎ) ㅅㄷㅎㄷ"; sh = "under-try"
+        elif k < .78: t = f"{use(imp)} ((ㅈㅈㄱ {use(imp)} ㅁㄹㅎㄷ) ㅎ) ㅅㄷㅎㄷ"; sh = "retry-in-handler"
+        elif k < .84:
+            wrong = [x + R.choice([0, 0, 1]) for x in lits] if R.random() < .6 else lits + [R.choice([0, 1])]
+            t = "(" + " ".join(E(x) for x in wrong) + f" ㅂㅎ{E(len(wrong))})"; sh = "literals-maybe-missing"
+        elif k < .9: t = f"({st(R.choice([rel + 'x', rel.split('/')[0], 'nope', '', rel + '/']))} ㅂㅎㄴ)"; sh = "path-maybe-missing"
+        elif k < .95: t = f"({st(rel[:len(rel) // 2])} {st(rel[len(rel) // 2:])} ㄷㅎㄷ) ㅂㅎㄴ"; sh = "computed-path"
+        else: t = f"{by_lit} ㅁㄹㅎㄴ ({use('(ㄱ ㄱㅇㄱ ㅎㄴ)')} {use(by_path)} ㅁㄹㅎㄷ ㅎ) ㅎㄴ"; sh = "module-object-passed-on"
+        cases.append(dict(text=t, files=files, stdin=["a", "b"][:R.randrange(0, 3)], floats=True)); shapes[sh] += 1; shapes["module:" + kind] += 1
+    a = impl_run(cases); b = model_run(cases, tlimit=10); dist, bad = compare(cases, a, b)
+    for x in bad: x["files"] = {k_: v_.decode("utf-8", "replace") for k_, v_ in next(c for c in cases if c["text"] == x["program"])["files"].items()}
+    errs = collections.Counter(res(x).split(" @")[0] for x in a if res(x).startswith("E "))
+    r.slice("imports_in_the_main_model", len(cases), len({(c["text"], tuple(sorted(c["files"].items()))) for c in cases}), [cases[0]["text"], cases[1]["text"]],
+            dict(outcomes=dict(dist), shapes=dict(shapes), error_classes=dict(errs)),
+            "generated directory trees of module files x importing programs (both routes, repeated, nested, under try, bad modules): result / error with spans and the complete event trace, interpreter on real files vs run_main_fs of the model", bad)
 
 def c20_isolation(r, seed, tier, model_ok):
     """(a) sequences of programs (pure, throwing, dictionary-heavy, I/O with canned stdin, importing; plus NEAR-COPIES of each other laid out on
